@@ -49,6 +49,15 @@ fn hook_stream_with(fen: &str, depth: usize, seed: u64, hseed: u64, ev: &Evaluat
     out
 }
 
+/// one worker on a memory the engine creates itself (full size), through the synchronous entry
+fn own_memory_stream(p: &Pos, depth: usize, seed: u64, ev: &Evaluator) -> Option<String> {
+    let out = srch::search(&to_state(p), ev, &srch::Cfg { depth: Some(depth), workers: Some(1), seed }, &weechess_engine::searcher::verif::Cancel::new(), None);
+    if out.panic.is_some() {
+        return None;
+    }
+    Some(stream_of(&out.lines, &out.progress))
+}
+
 fn public_stream(p: &Pos, depth: usize, seed: u64) -> Option<String> {
     let (h, _tx, rx) = Searcher::new().analyze(to_state(p), seed, Evaluator::default(), Some(depth), None);
     let mut lines = vec![];
@@ -129,6 +138,10 @@ pub fn run(ctx: &Ctx, rep: &mut Report) {
                     (public_stream(&p, depth, seed), public_stream(&p, depth, seed))
                 }
                 "cli" => (cli_stream(ctx.bin.as_ref().unwrap(), fen, depth, seed), cli_stream(ctx.bin.as_ref().unwrap(), fen, depth, seed)),
+                "own-memory" => {
+                    let p = Pos::from_fen(fen).unwrap();
+                    (own_memory_stream(&p, depth, seed, &ev), own_memory_stream(&p, depth, seed, &ev))
+                }
                 "hook-default-workers" => (hook_stream_with(fen, depth, seed, hseed, &ev, None), hook_stream_with(fen, depth, seed, hseed, &ev, None)),
                 _ => (hook_stream(fen, depth, seed, hseed, &ev), hook_stream(fen, depth, seed, hseed, &ev)),
             };
@@ -244,6 +257,25 @@ pub fn run(ctx: &Ctx, rep: &mut Report) {
             }
         }
         let _ = std::fs::remove_file(&f);
+    }
+    // (1c) one worker, depth limit 4-5, on a memory the engine creates itself (1 GiB: a few pairs per shard)
+    for _ in 0..(if ctx.thorough() { 12 } else { 2 }) {
+        if !ctx.time_left() {
+            break;
+        }
+        let p = c03::random_root(&mut rng, &corpus);
+        let depth = if p.men() > 16 { 4 } else { rng.gen_range(4..=5) };
+        let seed: u64 = rng.gen();
+        let (a, b) = (own_memory_stream(&p, depth, seed, &ev), own_memory_stream(&p, depth, seed, &ev));
+        rep.eval(1);
+        rep.count("own_memory_pairs_one_worker", 1);
+        if a.is_none() || b.is_none() {
+            rep.count("panic_left_to_C04", 1);
+        } else if a != b {
+            rep.violation("not-reproducible", &format!("not-reproducible|own-memory|{}|d{}", p.fen(), depth), &format!("one worker, engine-created memory, seed {}:\n{:?}\n{:?}", seed, a, b), json!({"fen": p.fen(), "depth": depth, "seed": seed, "path": "own-memory"}));
+        } else {
+            rep.distinct(mix(p.key_hash(), 6_000_000 + depth as u64));
+        }
     }
     // (3) public entry point (full-size table), depth <= 3, twice in this process
     let k = if ctx.thorough() { 20 } else { 1 };
